@@ -37,10 +37,12 @@ type Case struct {
 	// a comment line of 70000 bytes is inserted before rule number LongLine-1 (0 = none): too long for the line reader
 	LongLine int `json:"long_line,omitempty"`
 	// the same Packer first packs the directory while its rule file says "*" (everything ignored)
-	WarmUp bool     `json:"warm_up,omitempty"`
-	NoFile bool     `json:"no_file,omitempty"` // no .terraformignore at all: defaults only
-	Tree   fsx.Tree `json:"tree"`
-	Leg    string   `json:"leg"` // pack | off | deref | bundle
+	WarmUp bool `json:"warm_up,omitempty"`
+	NoFile bool `json:"no_file,omitempty"` // no .terraformignore at all: defaults only
+	// .terraformignore is a symlink to a regular file of the tree that holds the rules
+	RulesViaLink bool     `json:"rules_via_link,omitempty"`
+	Tree         fsx.Tree `json:"tree"`
+	Leg          string   `json:"leg"` // pack | off | deref | bundle
 }
 
 var subIgnore = ev.Register("ignore", checkIgnore).
@@ -64,7 +66,10 @@ func (c Case) ruleText() string {
 
 func fullTree(c Case) fsx.Tree {
 	tr := append(fsx.Tree{}, c.Tree...)
-	if !c.NoFile {
+	if !c.NoFile && c.RulesViaLink {
+		tr = append(tr, fsx.Node{Path: "zz-ignore-rules", Kind: "file", Content: c.ruleText(), Mode: 0644, Sec: 1500000000},
+			fsx.Node{Path: ".terraformignore", Kind: "symlink", Target: "zz-ignore-rules"})
+	} else if !c.NoFile {
 		tr = append(tr, fsx.Node{Path: ".terraformignore", Kind: "file", Content: c.ruleText(), Mode: 0644, Sec: 1500000000})
 	}
 	return tr
@@ -248,7 +253,7 @@ func checkIgnore(c Case) error {
 		return nil
 	}
 	if err != nil {
-		hasLink := false
+		hasLink := c.RulesViaLink && !c.NoFile
 		for _, n := range c.Tree {
 			if n.Kind == "symlink" {
 				hasLink = true
@@ -360,6 +365,7 @@ func genCase(leg string) func(t *rapid.T) Case {
 		}
 		c.WarmUp = rapid.IntRange(0, 5).Draw(t, "warmup") == 0
 		c.NoFile = rapid.IntRange(0, 11).Draw(t, "nofile") == 0
+		c.RulesViaLink = !c.NoFile && rapid.IntRange(0, 7).Draw(t, "rulesvialink") == 0
 		c.Tree = tgen.Gen(t, tgen.Config{MaxNodes: 16, IgnoreNames: true, ExtraNames: append(append([]string{}, rgen.Names...), "line\nbreak", "x\ny.log"), Links: true, LinkPct: 10, LinkIntents: []string{"file", "dotslash", "updown"}})
 		// always some members of the built-in classes
 		extra := fsx.Tree{
